@@ -54,9 +54,12 @@ def fix_handshake(rng, jds, sizes):
             jds[rng.randrange(len(jds))][k] += 1
 
 
-def gen_fast_case(rng, malformed=False, small=False):
+def gen_fast_case(rng, malformed=False, small=False, big=False):
     N = rng.choice([0, 1, 2, 3]) if rng.random() < 0.08 else rng.randint(2, 12 if small else 40)
     T = rng.randint(1, 2 if small else 5)
+    if big:
+        # more than a thousand stubs per topology
+        N, T = rng.randint(380, 520), rng.randint(1, 2)
     builds, sizes = [], []
     for _ in range(T):
         b = rng.choice(["clique", "clique", "cycle", "diamond", "path", "star", "single", "two", "diamond5", "pentagon"])
@@ -74,14 +77,16 @@ def gen_fast_case(rng, malformed=False, small=False):
             s = 3
         else:
             s = rng.randint(1, 5)
+        if big:
+            b, s = rng.choice(["clique", "cycle"]), rng.choice([3, 5])
         builds.append(b)
         sizes.append(s)
     jds = []
     for _ in range(N):
-        if rng.random() < 0.3:
+        if rng.random() < 0.3 and not big:
             jds.append([0] * T)
         else:
-            jds.append([rng.randint(0, 2 if small else 4) for _ in range(T)])
+            jds.append([rng.randint(2 if big else 0, 2 if small else 4) for _ in range(T)])
     if T >= 2 and rng.random() < 0.2:
         # coincidences: two topologies with identical degree columns and the same callback / size
         a, b = rng.sample(range(T), 2)
@@ -162,7 +167,8 @@ def gen_custom_case(rng, malformed=False, small=False):
                 jds[rng.randrange(N)][c2] += 1
     draws = [valid_draws(rng, sum(r[k] for r in jds)) for k in range(col)]
     return {"kind": "custom", "jds": jds, "sizes": sizes, "orbits": orbits, "builds": builds, "names": names,
-            "draws": draws, "handshake": not malformed, "as_tuple": [rng.random() < 0.4 for _ in builds]}
+            "draws": draws, "handshake": not malformed, "as_tuple": [rng.random() < 0.4 for _ in builds],
+            "names_iter": [rng.random() < 0.25 for _ in builds]}
 
 
 class ShuffleScript:
@@ -237,7 +243,12 @@ def run_generator(case, path="direct", algo=None):
     params = {GN.MOTIF_SIZES: list(case["sizes"]),
               GN.BUILD_FUNCTIONS: [wrap(k, shape_fn(b)) for k, b in enumerate(case["builds"])]}
     if kind == "custom":
-        params[GN.EDGE_NAMES] = [(lambda nm=nm: (nm if isinstance(nm, str) else tuple(nm))) for nm in case["names"]]
+        # the naming callback is called once per motif; what it hands back is any iterable of names: a tuple, or (names_iter) a
+        # fresh one-shot iterator each time
+        it = case.get("names_iter") or []
+        params[GN.EDGE_NAMES] = [(lambda nm=nm, j=j: (nm if isinstance(nm, str) else
+                                                      iter(tuple(nm)) if j < len(it) and it[j] else tuple(nm)))
+                                 for j, nm in enumerate(case["names"])]
         params[GN.MOTIF_INDICES] = [list(o) for o in case["orbits"]]
         cls, typ = GCMAlgorithmCustomMotifs, GCMAlgorithmTypes.MOTIFS
     elif kind == "network":
